@@ -210,4 +210,49 @@ theorem cur_of_owner {s : Sys} {t : Tid} (h : s.owner = some t) : cur s = (s.thr
 theorem cur_of_free {s : Sys} (h : s.owner = none) : cur s = .user .idle := by
   simp [cur, h]
 
+/-! ### Computing the holder's program counter after a step -/
+
+theorem cur_mk_self (s : Sys) (t : Tid) (q d w so i n pc td l is f) :
+    cur ⟨q, some t, d, w, so, i, n, upd s t pc td, l, is, f⟩ = pc := by
+  simp [cur, upd]
+
+theorem cur_mk_free (q d w so i n thr l is f) :
+    cur ⟨q, none, d, w, so, i, n, thr, l, is, f⟩ = .user .idle := rfl
+
+theorem cur_mk_other (s : Sys) (t : Tid) (hno : s.owner ≠ some t) (q d w so i n pc td l is f) :
+    cur ⟨q, s.owner, d, w, so, i, n, upd s t pc td, l, is, f⟩ = cur s := by
+  simp only [cur]
+  cases ho : s.owner with
+  | none => rfl
+  | some u =>
+    have : u ≠ t := fun h => hno (by rw [ho, h])
+    simp [upd, this]
+
+theorem ownerAfterRel_holder (s : Sys) (hd : s.depth = if s.owner = none then 0 else 1) (t : Tid)
+    (hown : s.owner = some t) : ownerAfterRel s = none := by
+  simp [ownerAfterRel, hd, hown]
+
+theorem free_of_canAcq (s : Sys) (t : Tid) (h : canAcq s t = true) (hno : s.owner ≠ some t) :
+    s.owner = none := by
+  simp [canAcq] at h; rcases h with h | h
+  · exact h
+  · exact absurd h hno
+
+/-- After `step_cases`: rewrite `cur s'` in the goal to a concrete program counter (holder or
+acquiring thread), to `idle` (release) or to `cur s` (steps of other threads), and record what
+`cur s` is.  `h1t : (s.thr t).pc.crit = true ↔ s.owner = some t`, `hd` = `LockInv.depth_ok`. -/
+macro "cur_simp" s:ident t:ident h1t:ident hd:ident hpc:ident : tactic => `(tactic| (
+  first
+  | (have hown : Sys.owner $s = some $t := ($h1t).mp (by rw [$hpc:ident]; rfl)
+     have hrel := ownerAfterRel_holder $s $hd $t hown
+     have hcur : cur $s = _ := (cur_of_owner hown).trans $hpc
+     simp only [hown, hrel, cur_mk_self, cur_mk_free])
+  | (have hno : Sys.owner $s ≠ some $t := fun h => by
+       have := ($h1t).mpr h; rw [$hpc:ident] at this; cases this
+     first
+     | (have hfree := free_of_canAcq $s $t (by assumption) hno
+        have hcur : cur $s = _ := cur_of_free hfree
+        simp only [cur_mk_self])
+     | simp only [cur_mk_other $s $t hno])))
+
 end PyCraft.Writers
